@@ -90,6 +90,9 @@ func stripConv(v ssa.Value) ssa.Value {
 }
 
 func isIntegral(t types.Type) bool {
+	if t == nil {
+		return false // (the stand-in node of a modelled deferred call has no type)
+	}
 	b, ok := t.Underlying().(*types.Basic)
 	return ok && b.Info()&types.IsInteger != 0
 }
